@@ -204,6 +204,11 @@ func condString(e ast.Expr) string {
 
 
 
+// fieldListTypes: the structs behind a state handle.  Their field lists are pinned: a state handle must
+// not share mutable tries / objects with another handle, so a new field (a cache of tries, a pool of
+// objects) has to be looked at.
+var fieldListTypes = map[string]bool{"storageDB": true, "AccountDB": true, "accountObject": true}
+
 // guardFuncs: functions whose branch conditions the model follows.  For each, one `guards` site
 // lists every if-condition in source order with LOCAL identifiers blanked (`_`): comparison
 // operators, constants, called functions, selector names and the order of the branches are kept, so
@@ -220,6 +225,7 @@ var guardFuncs = map[string]bool{
 	"Transactions.Less": true, "calcReceiptsTree": true, "RewardCalculator.CalculateReward": true, "RewardCalculator.calculateRewardPerBlock": true,
 	"RewardCalculator.NextRewardHeight": true, "addReward": true, "RefundInfoList.AddRefundInfo": true, "MinerManager.RemoveUnusedValidator": true,
 	"removeUnusedValidator": true,
+	"storageDB.OpenTrie": true, "storageDB.OpenStorageTrie": true, "storageDB.CopyTrie": true, "NewAccountDB": true, "NewDatabase": true,
 }
 
 func normCond(info *types.Info, e ast.Expr) string {
@@ -672,6 +678,27 @@ func main() {
 				}
 				rel := sc.dir + "/" + base
 				for _, d := range f.Decls {
+					if gd, ok := d.(*ast.GenDecl); ok && gd.Tok == token.TYPE {
+						for _, sp := range gd.Specs {
+							ts, ok := sp.(*ast.TypeSpec)
+							if !ok || !fieldListTypes[ts.Name.Name] || !strings.HasPrefix(rel, "src/storage/account/") {
+								continue
+							}
+							if st, ok := ts.Type.(*ast.StructType); ok {
+								var fl []string
+								for _, fd := range st.Fields.List {
+									ty := exprString(fset, fd.Type)
+									if len(fd.Names) == 0 {
+										fl = append(fl, ty)
+									}
+									for _, nm := range fd.Names {
+										fl = append(fl, nm.Name+" "+ty)
+									}
+								}
+								sites = append(sites, site{"fields", rel, ts.Name.Name, strings.Join(fl, "; ")})
+							}
+						}
+					}
 					fd, ok := d.(*ast.FuncDecl)
 					if !ok || fd.Body == nil {
 						continue
